@@ -4279,6 +4279,23 @@ def dump_and_judge(ctx, cls, clsname, obj, state, via, origin, suffix='', deep=N
     for f, recs in expect.items():
         if len(recs) >= 2 and state['form'][f] == 'list':
             ctx.count('longest:%s:%s:%s' % (tag_of(clsname, behavior), longest_where(recs), nrec_tag(len(recs))))
+    # a quarter of the paragraphs have their FIELDS re-ordered before the dump (sort_fields(), or the first field moved
+    # last): the order of the fields is no part of what a structured field dumps as - records, widths and the re-parse
+    # are judged exactly as otherwise
+    if sum(len(r) for r in expect.values()) % 4 == 0:
+        try:
+            if len(expect) % 2:
+                obj.sort_fields()
+                ctx.count('fields-reordered-before-dump:sort_fields')
+            else:
+                ks = list(obj.keys())
+                if len(ks) >= 2:
+                    obj.order_last(ks[0])
+                ctx.count('fields-reordered-before-dump:order_last')
+        except Exception as e:
+            ctx.violation('field-reordering-raises/%s%s' % (type(e).__name__, suffix),
+                          'sort_fields() / order_last() on a %s %s(%s) raised %r' % (origin, clsname, behavior, e))
+            return False
     ctx.mon('M.dump')
     try:
         txt = do_dump(obj, via)
@@ -5855,3 +5872,9 @@ TECHNIQUE = ('runtime monitoring: boundary oracle M (record model) on parse / du
              '(mutate through the public API, re-dump, re-judge) on one live object')
 
 _enum_floors()
+
+# fields re-ordered before the dump (added last; quick measured 6815 / 9725 on seed 0; thorough scaled conservatively)
+for _tier, _a, _b in (('quick', 3000, 4500), ('thorough', 60000, 90000)):
+    FLOORS[_tier].setdefault('counters', {})['fields-reordered-before-dump:sort_fields'] = _a
+    FLOORS[_tier]['counters']['fields-reordered-before-dump:order_last'] = _b
+
